@@ -122,6 +122,12 @@ fn small_list(r: &mut Rng) -> Vec<String> {
     ];
     r.shuffle(&mut lines);
     lines.truncate(8 + r.below(8));
+    // plain tagged rules (the category that is re-indexed whenever tags change), one of them
+    // without any indexable token
+    lines.push("adv$tag=t1".to_string());
+    if r.chance(1, 2) {
+        lines.push("/pixel-t.gif$tag=t1,image".to_string());
+    }
     for _ in 0..r.below(4) {
         lines.push(gen::gen_rule(r, &Profile::ALL));
     }
@@ -185,7 +191,8 @@ fn battery(e: &Engine, reqs: &[gen::Req]) -> String {
 fn prior_engine() -> Engine {
     let lines: Vec<String> = PRIOR_LINES.iter().map(|s| s.to_string()).collect();
     let mut e = build(&lines, true, true, 0);
-    e.use_tags(&["p1"]);
+    // t1 is a tag of the subject lists: it is already enabled when a hostile buffer is loaded
+    e.use_tags(&["p1", "t1"]);
     e
 }
 
